@@ -16,7 +16,9 @@ ASSUMPTIONS = [
 ]
 RULE = ("ops from harness/src/c11.rs, one splitmix64 PRNG (VERIF_SEED): `proc` = random parent forests (0-3 roots, depth<=2, shared/missing subtrees, sorted and unsorted, "
         "duplicate names, relabelled id order) x item streams derived by mutation (mtime/size/ctime/ctime-none/inode/type change, removed, added, unbalanced EndTree) x "
-        "ignore_ctime/ignore_inode x random index; `e2e` = real backup histories (see notes). Non-trivial = at least one Matched or NotMatched answer / at least one reused or re-read file; "
+        "ignore_ctime/ignore_inode x random index; `e2e` = real backup histories (see notes), preceded on every run by 64 directed histories at the two borders of the property: "
+        "a file rewritten in place with equal size and mtime (ctime the only witness) under all 8 combinations of ignore_ctime/ignore_inode/skip_if_unchanged, and an unchanged multi-chunk "
+        "file of which only some chunks are still indexed (first chunk surviving, later one gone; first gone; all gone). Non-trivial = at least one Matched or NotMatched answer / at least one reused or re-read file; "
         "distinct by hash of (op, observation).")
 EXPLANATION = ("Theorems: TreeIterator over a depth-first, name-sorted source yields exactly the bracketed walk and queries names in non-decreasing order per level; cursor walk of Parent refines lookup-by-name under sortedness (never skips an equal name; several parents; directory stack); parent-based root tree id = forced "
                "root tree id for every faithful parent; reuse only if all blobs indexed, else re-read; stat/type change never matches. Correspondence: per item the real Parent::process "
